@@ -2,14 +2,17 @@ import FiberModel.DriverUtil
 import FiberModel.C14.Spec
 /-
 Driver for C14. Case fields (after the id):
-  cfg      ext;sttl;maxBytes;expiration;storeHeaders;cacheControl;kg;eg;iv;nx
+  cfg      ext;sttl;maxBytes;expiration;storeHeaders;cacheControl;kg;eg;iv;nx;sy
   methods  hex list ("-" = default)
-  ops      op|op|…   op = grp;dt;method;keyMat;cc;inv;skip;expGen;status;body;ctype;cenc;headers;hdelay
+  ops      op|op|…   op = grp;dt;method;keyMat;cc;inv;skip;expGen;status;body;ctype;cenc;headers;hdelay;err
+                     (err = 1: the origin handler returns fiber.NewError(status, body))
   scheds   "-" or grp:t.t.t/grp:t.t
   obs      o|o|…     o  = x;status;body;ctype;cenc;headers;ran;held | panic | deadlock | skipped
 The model is run with the same `step` function the theorems are about: sequential ops run their
 thread to completion, concurrent groups release threads in the scheduled order (a release runs the
-thread from one yield point – KeyGenerator, origin handler – to the next).
+thread from one yield point – KeyGenerator, [with `sy`: the end of Storage.Get inside the first
+critical section,] origin handler – to the next, or until it blocks on `mux`; a blocked thread goes on
+by itself, first come first served, as soon as the holder unlocks).
 -/
 open B DriverUtil C14
 
@@ -34,6 +37,7 @@ structure DCfg where
   eg : Bool
   iv : Bool
   nx : Bool
+  sy : Bool
 
 structure DOp where
   grp : Nat
@@ -48,14 +52,15 @@ def okMethods : List Bytes := [b "GET", b "HEAD", b "POST", b "PUT"]
 
 def parseCfg (s methods : String) : E DCfg := do
   match s.splitOn ";" with
-  | [ext, sttl, mb, exp, sh, cc, kg, eg, iv, nx] =>
+  | [ext, sttl, mb, exp, sh, cc, kg, eg, iv, nx, sy] =>
     let ms ← match hexList methods with | some l => pure l | none => dom "methods"
     if !ms.all okMethods.contains then dom "method"
     let cfg : Config := { ext := ← pBit ext "ext", stTTL := ← pBit sttl "sttl", maxBytes := ← pNat mb "maxBytes",
                           expiration := ← pInt exp "expiration", storeHeaders := ← pBit sh "sh",
                           cacheControl := ← pBit cc "cc", methods := ms }
     if cfg.maxBytes ≥ 2 ^ 62 then dom "maxBytes too large"
-    pure { cfg := cfg, kg := ← pBit kg "kg", eg := ← pBit eg "eg", iv := ← pBit iv "iv", nx := ← pBit nx "nx" }
+    let sy ← pBit sy "sy"
+    pure { cfg := cfg, kg := ← pBit kg "kg", eg := ← pBit eg "eg", iv := ← pBit iv "iv", nx := ← pBit nx "nx", sy := sy }
   | _ => dom "cfg fields"
 
 def parseHdrs (s : String) : E (List (Bytes × Bytes)) :=
@@ -70,7 +75,7 @@ def trimmed (v : Bytes) : Bool := v.head? != some 32 && v.getLast? != some 32 &&
 
 def parseOp (d : DCfg) (s : String) : E DOp := do
   match s.splitOn ";" with
-  | [grp, dt, me, km, cc, inv, skip, eg, st, body, ct, ce, hs, hd] =>
+  | [grp, dt, me, km, cc, inv, skip, eg, st, body, ct, ce, hs, hd, er] =>
     let method ← pHex me "method"
     if !okMethods.contains method then dom "method"
     let keyMat ← pHex km "keyMat"
@@ -93,9 +98,13 @@ def parseOp (d : DCfg) (s : String) : E DOp := do
     if !(hs.map (·.1)).eraseDups.length == hs.length then dom "duplicate header"
     let grp ← pNat grp "grp"
     if grp != 0 && (!d.kg || hd != 0) then dom "concurrent op"
+    let body ← pHex body "body"
+    let er ← pBit er "err"
+    -- a failing handler sets nothing itself: fiber's default ErrorHandler writes status, message, text/plain
+    if er && (!ct.isEmpty || !ce.isEmpty || !hs.isEmpty || body.isEmpty || status < 400) then dom "error op"
     pure { grp := grp, dt := dt, hdelay := hd,
            req := { method := method, keyMat := keyMat, cc := cc, inv := inv, skip := skip, expGen := expGen,
-                    resp := { status := status, body := ← pHex body "body", ctype := ct, cenc := ce, headers := hs } } }
+                    resp := { status := status, body := body, ctype := ct, cenc := ce, headers := hs }, err := er } }
   | _ => dom "op fields"
 
 def parseScheds (s : String) : E (List (Nat × List Nat)) :=
@@ -155,8 +164,11 @@ def tick (g : G) (d : Nat) : G := { g with ts := g.ts + d, uts := g.uts + d }
 
 def pcOf (g : G) (t : Nat) : Pc := match g.threads[t]? with | some th => th.pc | none => .done
 
-def parked : Pc → Bool
+/-- program points at which a thread of a concurrent group is parked by the harness (`sy`: also
+    inside the first critical section, at the end of `manager.get` → `Storage.Get`) -/
+def parked (sy : Bool) : Pc → Bool
   | .wantLock1 | .bypass _ | .next | .done | .panicked => true
+  | .sec1 => sy
   | _ => false
 
 /-- step thread `t` until `stop` holds for its pc or it cannot move (fuel 10 ≥ the 8 steps of a thread) -/
@@ -167,8 +179,26 @@ def stepUntil (cfg : Config) (stop : Pc → Bool) : Nat → G → Nat → G
     | none => g
     | some g' => if stop (pcOf g' t) then g' else stepUntil cfg stop f g' t
 
-/-- one release of a thread by the scheduler: run from one yield point to the next -/
-def release (cfg : Config) (g : G) (t : Nat) : G := stepUntil cfg parked 10 g t
+/-- run thread `t` until it is parked, finished, or blocked on `mux` (then it joins the wait queue) -/
+def advance (cfg : Config) (sy : Bool) : Nat → G × List Nat → Nat → G × List Nat
+  | 0, gq, _ => gq
+  | f + 1, (g, q), t =>
+    match step cfg g t with
+    | none => if pcOf g t == .wantLock1 || pcOf g t == .wantLock2 then (g, q ++ [t]) else (g, q)
+    | some g' => if parked sy (pcOf g' t) then (g', q) else advance cfg sy f (g', q) t
+
+/-- hand the free mutex to the waiting threads, first come first served -/
+def settle (cfg : Config) (sy : Bool) : Nat → G × List Nat → G × List Nat
+  | 0, gq => gq
+  | f + 1, (g, q) =>
+    match g.mux, q with
+    | none, u :: rest => settle cfg sy f (advance cfg sy 10 (g, rest) u)
+    | _, _ => (g, q)
+
+/-- one release of a thread by the scheduler: run from one yield point to the next; a thread that is
+    blocked on `mux` is not parked, releasing it does nothing -/
+def release (cfg : Config) (sy : Bool) (gq : G × List Nat) (t : Nat) : G × List Nat :=
+  if gq.2.contains t then gq else settle cfg sy 16 (advance cfg sy 10 gq t)
 
 def finished (g : G) (t : Nat) : Bool := pcOf g t == .done || pcOf g t == .panicked
 
@@ -200,7 +230,7 @@ def opTags (cfg : Config) (pre post : G) (q : Req) : List String :=
   (if !post.sh.heap.dead.isEmpty then ["index-parked"] else [])
 
 /-- run the history; returns the model's observation per op and the branch tags seen -/
-def runModel (cfg : Config) (ops : List DOp) (scheds : List (Nat × List Nat)) : List String × List String := Id.run do
+def runModel (cfg : Config) (sy : Bool) (ops : List DOp) (scheds : List (Nat × List Nat)) : List String × List String := Id.run do
   let mut g := G.init T0 T0 (ops.map (·.req))
   let mut out : Array String := #[]
   let mut tags : List String := []
@@ -229,13 +259,16 @@ def runModel (cfg : Config) (ops : List DOp) (scheds : List (Nat × List Nat)) :
       else
         let n := ((arr.toList.drop i).takeWhile (·.grp == o.grp)).length
         let sched := ((scheds.find? (·.1 == o.grp)).map (·.2)).getD []
+        let mut gq : G × List Nat := (g, [])
         for t in sched do
-          g := release cfg g (i + t)
-        -- drain: lowest unfinished thread first
+          gq := release cfg sy gq (i + t)
+          if !gq.2.isEmpty && !tags.contains "mutex-wait" then tags := "mutex-wait" :: tags
+        -- drain: the lowest thread that can be released (unfinished and not blocked on `mux`)
         for _ in [0:4 * n + 4] do
-          match (List.range n).find? (fun t => !finished g (i + t)) with
-          | some t => g := release cfg g (i + t)
+          match (List.range n).find? (fun t => !finished gq.1 (i + t) && !gq.2.contains (i + t)) with
+          | some t => gq := release cfg sy gq (i + t)
           | none => pure ()
+        g := gq.1
         if g.sh.heap.live.length > g.sh.store.length && !tags.contains "ghost-entry" then tags := "ghost-entry" :: tags
         for t in [0:n] do
           let s := obsOf cfg g (i + t)
@@ -268,7 +301,7 @@ def handleCase (f : List String) : Except String Verdict := do
     let scheds ← parseScheds schedS
     checkGroups ops scheds
     let cfg := d.cfg
-    let (mo, mtags) := runModel cfg ops scheds
+    let (mo, mtags) := runModel cfg d.sy ops scheds
     let modelObs := "|".intercalate mo
     let implParts := impl.splitOn "|"
     let spec : Option String :=
@@ -286,6 +319,7 @@ def handleCase (f : List String) : Except String Verdict := do
       (if has (·.startsWith "u;") then ["unreachable"] else []) ++
       (if has (·.startsWith "n;") then ["bypass"] else []) ++
       (if cfg.maxBytes > 0 then ["maxbytes"] else []) ++
+      (if d.sy then ["storage-yield"] else []) ++
       mtags ++
       (if has (·.startsWith "h;") && has (·.startsWith "m;") then ["nt"] else [])
     pure { id := id, modelObs := modelObs, implObs := impl, spec := spec, tags := tags }
